@@ -113,6 +113,21 @@ def wide_struct(nmembers, nglobals):
     return "\n".join(out) + "\n"
 
 
+def pc_unused_diamond(depth, where):
+    """a push constant, and an entry point that reaches a deep diamond of helpers none of which touches it"""
+    out = ["var<push_constant> pc: vec4<f32>;", "@group(0) @binding(0) var<uniform> u: vec4<f32>;"]
+    for i in range(depth):
+        body = "return u.x;" if i == 0 else "return h%d() + h%d();" % (i - 1, i - 1)
+        out.append("fn h%d() -> f32 { %s }" % (i, body))
+    call = "_ = h%d();" % (depth - 1)
+    if where == "vertex_only":
+        out.append("@vertex fn vs() -> @builtin(position) vec4<f32> { return pc; }")
+        out.append("@fragment fn fs() { %s }" % call)
+    else:
+        out.append("@compute @workgroup_size(1) fn cs() { %s }" % call)
+    return "\n".join(out) + "\n"
+
+
 def override_ladder(depth, use):
     """override tile_i = tile_{i-1} * tile_{i-1} (base 1: nothing overflows); used as a workgroup size / in a body / not at all"""
     out = ["override tile_0: u32 = 1u;"]
@@ -142,6 +157,9 @@ def stages(rng, tier):
     for d in [8, 12, 14]:
         s1.append(mk(struct_tower(d), "struct_tower", d))
     for d in [4, 8, 16]:
+        for where in ("vertex_only", "unused"):
+            s1.append(mk(pc_unused_diamond(d, where), "pc_unused_diamond_" + where, d))
+    for d in [4, 8, 16]:
         for use in ("workgroup_size", "body", "unused"):
             s1.append(mk(override_ladder(d, use), "override_ladder_" + use, d))
     s1.append(mk(fanout(12, 3, rng), "fanout", 12))
@@ -150,6 +168,9 @@ def stages(rng, tier):
     for d in deep:
         for f in forms:
             s2.append(mk(chain(d, f, ["vertex", "fragment", "compute"]), "chain_" + f, d))
+    for d in [24, 48, 64]:
+        for where in ("vertex_only", "unused"):
+            s2.append(mk(pc_unused_diamond(d, where), "pc_unused_diamond_" + where, d))
     for d in [24, 48, 64]:
         for use in ("workgroup_size", "body"):
             s2.append(mk(override_ladder(d, use), "override_ladder_" + use, d))
